@@ -116,6 +116,10 @@ class CuckooWorld(Scenario):
             key = seams.key_of(k)
             h = self.hf(key) if self.hf is not None else own_fnv1a64(key)
             fp = h & self.mask
+            if fp == 0:
+                # 0 is the empty-slot marker of the export format; the filter stores such keys as 1
+                fp = 1
+                self.ctx.probe("key_with_fingerprint_zero")
             self.key_fp_cache[k] = fp
         return fp
 
